@@ -228,7 +228,32 @@ func classifyCuts(c *Ctx, res *report.Result, rule, owner string, cb, top *ssa.F
 						errOp = flow.Ret(ret)[len(ret.Results)-1]
 					}
 					if errOp != nil && !flow.IsNilConst(flow.ResolveLoad(errOp)) {
-						res.Hold(rule, construct, pos, "class error: Stop is accompanied by a non-nil error operand")
+						// the operand must be known non-nil here: tested `!= nil` on this side, or freshly made
+						known := false
+						ev := flow.ResolveLoad(errOp)
+						for _, g := range gs {
+							if bo, isB := g.Cond.(*ssa.BinOp); isB && (bo.Op == token.NEQ || bo.Op == token.EQL) && flow.IsNilConst(bo.Y) {
+								if (bo.X == ev || flow.ResolveLoad(bo.X) == ev || flow.SameValue(bo.X, ev)) && (bo.Op == token.NEQ) == g.Side {
+									known = true
+								}
+							}
+						}
+						if call, isC := ev.(*ssa.Call); isC {
+							if sc := flow.StaticCallee(&call.Call); sc != nil {
+								switch sc.Name() {
+								case "New", "Errorf", "Error", "Join", "Wrap", "Wrapf":
+									known = true
+								}
+							}
+						}
+						if _, isMI := ev.(*ssa.MakeInterface); isMI {
+							known = true
+						}
+						if known {
+							res.Hold(rule, construct, pos, "class error: Stop is returned with an error that is known to be non-nil on this path")
+						} else {
+							res.Viol(rule, construct, pos, "visit.Stop is returned with an error value that is not known to be non-nil here (the test of the error is missing or inverted): with a nil error the walk is silently truncated after the first element", gtxt...)
+						}
 					} else {
 						res.Viol(rule, construct, pos, "visit.Stop returned with a nil error: the walk is silently truncated", gtxt...)
 					}
